@@ -321,6 +321,39 @@ def conditional_assignments(fn) -> int:
     return done
 
 
+def tuple_assignments(fn) -> int:
+    """a, b = (x, y)   ->   a = x; b = y     when neither x nor y reads a or b (so the order of the two bindings cannot matter);
+    a target named `_` whose value is a plain name is dropped."""
+    done = 0
+    for lst in _blocks(fn):
+        i = 0
+        while i < len(lst):
+            st = lst[i]
+            if isinstance(st, ast.Assign) and len(st.targets) == 1 and isinstance(st.targets[0], ast.Tuple) and isinstance(st.value, ast.Tuple) \
+                    and len(st.targets[0].elts) == len(st.value.elts) and all(isinstance(t, ast.Name) for t in st.targets[0].elts) \
+                    and not any(isinstance(v, ast.Starred) for v in st.value.elts):
+                names = {t.id for t in st.targets[0].elts}
+                reads = {x.id for v in st.value.elts for x in ast.walk(v) if isinstance(x, ast.Name)}
+                if not (names & reads) and len(names) == len(st.targets[0].elts):
+                    new = []
+                    for t, v in zip(st.targets[0].elts, st.value.elts):
+                        if t.id == "_" and isinstance(v, (ast.Name, ast.Constant)):
+                            continue
+                        if isinstance(v, ast.Name) and v.id == t.id:
+                            continue
+                        new.append(ast.copy_location(ast.Assign(targets=[ast.Name(id=t.id, ctx=ast.Store())], value=v), st))
+                    if not new:
+                        new = [ast.copy_location(ast.Pass(), st)]
+                    for n in new:
+                        ast.fix_missing_locations(n)
+                    lst[i:i + 1] = new
+                    i += len(new)
+                    done += 1
+                    continue
+            i += 1
+    return done
+
+
 def _reads(node: ast.AST, name: str) -> bool:
     return any(isinstance(x, ast.Name) and x.id == name for x in ast.walk(node))
 
@@ -377,6 +410,7 @@ def apply(tree: ast.Module) -> int:
     done = call_arguments(tree)
     for node in ast.walk(tree):
         if isinstance(node, FuncDef):
+            done += tuple_assignments(node)
             done += conditional_assignments(node)
             done += accumulate_loops(node)
             done += copy_propagation(node)
